@@ -10290,9 +10290,12 @@ func (l *Lowerer) resolveType(typ parser.Type) (ir.TypeHandle, error) {
 		// Parse size expression if present
 		var size ir.ArraySize
 		if t.Size != nil {
-			if n, ok := l.tryEvalConstantUint(t.Size); ok {
-				if n == 0 {
+			if _, n, err := l.evalConstantIntExpr(t.Size); err == nil {
+				if n <= 0 {
 					return 0, fmt.Errorf("array size must be greater than 0")
+				}
+				if n > math.MaxUint32 {
+					return 0, fmt.Errorf("array size %d is too large", n)
 				}
 				constSize := uint32(n)
 				size.Constant = &constSize
